@@ -9,6 +9,7 @@ import (
 	"go/token"
 	"go/types"
 	"math/big"
+	"os"
 	"sort"
 	"strings"
 
@@ -48,7 +49,15 @@ type Exec struct {
 	topFr      *frame   // frame of the function under verification
 	lateProt   []Expr   // opt protect-local: designators over locals, evaluated at each unknown call
 	lateText   string
+	bounded    []string // loops without annotation that were unrolled to autoUnrollMax with an unwinding assertion
+	autoDepth  int
 }
+
+// autoUnrollMax: a loop that has no annotation (typically one that a change introduced into a
+// function under contract) is unrolled this many times with an unwinding assertion. If the
+// assertion discharges the unrolling is complete; otherwise the function's proofs are bounded
+// and only a counterexample (sat) found inside the bound is reported.
+const autoUnrollMax = 48
 
 func (x *Exec) pos(p token.Pos) token.Position { return x.eng.fset.Position(p) }
 
@@ -589,10 +598,18 @@ func (x *Exec) loopSpec(fr *frame, li *loopInfo) *LoopSpec {
 func (x *Exec) runLoop(fr *frame, li *loopInfo, st *State) ([]edge, error) {
 	spec := x.loopSpec(fr, li)
 	hpos := x.loopPos(li)
-	if spec == nil {
-		return nil, unsupported("loop %d of %s (line %d) has neither invariant nor unroll", li.ordinal, fr.fn.Name(), hpos.Line)
-	}
 	name := fmt.Sprintf("%sloop%d", fr.prefix, li.ordinal)
+	auto := false
+	if spec == nil {
+		if fr.depth != 0 || x.autoDepth > 0 || os.Getenv("VERIF_NO_AUTOUNROLL") != "" {
+			return nil, unsupported("loop %d of %s (line %d) has neither invariant nor unroll", li.ordinal, fr.fn.Name(), hpos.Line)
+		}
+		spec = &LoopSpec{Unroll: autoUnrollMax}
+		auto = true
+		x.autoDepth++
+		defer func() { x.autoDepth-- }()
+		x.bounded = append(x.bounded, fmt.Sprintf("loop %d of %s (line %d) has no annotation: unrolled %d times", li.ordinal, fr.fn.Name(), hpos.Line, autoUnrollMax))
+	}
 	if spec.Unroll > 0 {
 		var out []edge
 		cur := st
@@ -620,7 +637,11 @@ func (x *Exec) runLoop(fr *frame, li *loopInfo, st *State) ([]edge, error) {
 				break
 			}
 			if iter >= spec.Unroll {
-				x.vc.oblige("unwind", name+"/unwind", next.pc, TFalse, hpos, fmt.Sprintf("loop runs at most %d iterations", spec.Unroll))
+				kind, oname := "unwind", name+"/unwind"
+				if auto {
+					kind, oname = "auto-unwind", name+"/auto-unwind"
+				}
+				x.vc.oblige(kind, oname, next.pc, TFalse, hpos, fmt.Sprintf("loop runs at most %d iterations", spec.Unroll))
 				break
 			}
 			cur = next
@@ -1340,6 +1361,11 @@ func (x *Exec) execInstr(fr *frame, st *State, in ssa.Instruction) error {
 			ln := app(vc.ar.IdxSort(), "gs.len", xv.T)
 			x.safetyObl(fr, st, "index", i.Pos(), x.inBounds(idx, ln, i.Index.Type()), "index out of range")
 			v := app(vc.ar.Sort(IntKind{8, false}), "gs.at", xv.T, idx)
+			if lit, ok := vc.litOf(xv.T); ok && len(lit) > 0 && len(lit) <= 256 {
+				// a constant table indexed by a symbolic value: an array term (default = most common
+				// byte, one store per exception) instead of len(lit) ground facts about gs.at
+				v = Select(vc.litTable(lit), idx)
+			}
 			vc.assume(st.pc, vc.ar.InRange(v, IntKind{8, false}))
 			x.setReg(st, i, Val{T: v})
 		default:
@@ -2038,6 +2064,16 @@ func (x *Exec) binop(fr *frame, st *State, op token.Token, a, b Val, at, bt, rt 
 				sum, _ := vc.ar.Bin("+", app(idx, "gs.len", a.T), app(idx, "gs.len", b.T), kInt)
 				r = vc.bind("cat", r)
 				vc.assert(Eq(app(idx, "gs.len", r), sum))
+				{
+					// characters of a concatenation
+					i := "i!q"
+					la := app(idx, "gs.len", a.T).S
+					lt0, lt1, inA, sub := "(<= 0 "+i+")", "(< "+i+" "+sum.S+")", "(< "+i+" "+la+")", "(- "+i+" "+la+")"
+					if vc.ar.Mode == ModeBV {
+						lt0, lt1, inA, sub = "(bvsle #x0000000000000000 "+i+")", "(bvslt "+i+" "+sum.S+")", "(bvslt "+i+" "+la+")", "(bvsub "+i+" "+la+")"
+					}
+					vc.assert(raw(fmt.Sprintf("(forall ((%s %s)) (! (=> (and %s %s) (= (gs.at %s %s) (ite %s (gs.at %s %s) (gs.at %s %s)))) :pattern ((gs.at %s %s))))", i, idx, lt0, lt1, r.S, i, inA, a.T.S, i, b.T.S, sub, r.S, i), SBool))
+				}
 				return Val{T: r, Typ: rt}, nil
 			case token.LSS, token.LEQ, token.GTR, token.GEQ:
 				vc.decl("fun:gs.lt", "(declare-fun gs.lt (Str Str) Bool)")
@@ -2178,6 +2214,22 @@ func (x *Exec) equal(st *State, a, b Val, at, bt types.Type) (Term, error) {
 	}
 	if a.T.Sort != b.T.Sort {
 		return Term{}, unsupported("comparison of %s and %s", at, bt)
+	}
+	if a.T.Sort == "Str" {
+		// Go string equality is extensional; Str is an uninterpreted sort, so for comparisons with a
+		// (short) literal the definition is spelt out: s == "lit" <=> len(s) == n && s[0] == 'l' && ...
+		for _, pr := range [][2]Term{{a.T, b.T}, {b.T, a.T}} {
+			if lit, ok := vc.litOf(pr[1]); ok && len(lit) <= 64 {
+				idx := vc.ar.IdxSort()
+				cs := []Term{Eq(app(idx, "gs.len", pr[0]), vc.idx(int64(len(lit))))}
+				for i := 0; i < len(lit); i++ {
+					cs = append(cs, Eq(app(vc.ar.Sort(IntKind{8, false}), "gs.at", pr[0], vc.idx(int64(i))), vc.ar.Lit64(int64(lit[i]), IntKind{8, false})))
+				}
+				e := vc.bind("streq", Eq(a.T, b.T))
+				vc.assert(Eq(e, And(cs...)))
+				return e, nil
+			}
+		}
 	}
 	return Eq(a.T, b.T), nil
 }
